@@ -24,6 +24,7 @@ func main() {
 	hi := fs.Int("hi", 65535, "quorum driver: last validator count")
 	in := fs.String("in", "", "script driver: file with one JSON behaviour per line")
 	pair := fs.Int64("pair", 0, "script driver: run every behaviour twice, the second clock ahead by this much, and write Pair lines (C14)")
+	unit := fs.Int("unit", 4, "timer driver with -in: milliseconds per clock unit of the specification's schedules")
 	out := fs.String("out", "/dev/stdout", "ndjson trace file")
 	_ = fs.Parse(os.Args[2:])
 	w := NewTraceWriter(*out)
@@ -50,7 +51,11 @@ func main() {
 			runShift(w, *seed, r, *steps)
 		}
 	case "timer":
-		runTimer(w, *seed, *from, *runs, *steps)
+		if *in != "" {
+			runTimerScript(w, *in, *from, *unit)
+		} else {
+			runTimer(w, *seed, *from, *runs, *steps)
+		}
 	case "payload":
 		runPayload(w, *seed, *full)
 	case "script":
